@@ -110,8 +110,9 @@ struct Session {
     TwoParticleGFContainer* TPC;
     bool early;     // construct IndexClassification, IndexHamiltonian and Symmetrizer before any prepare() call
     bool earlyHam, earlySymm;
+    double chiRtol; // user-set ReduceResonanceTolerance for two-particle objects (<= 0: library default)
     bool stress;    // every prepare()/compute() call is issued twice, values are re-evaluated, objects are copied
-    Session() : L(new Lattice), Idx(0), Ham(0), Symm(0), S(0), H(0), DM(0), Ops(0), GFC(0), TPC(0), early(false), earlyHam(false), earlySymm(false), stress(false) {}
+    Session() : L(new Lattice), Idx(0), Ham(0), Symm(0), S(0), H(0), DM(0), Ops(0), GFC(0), TPC(0), early(false), earlyHam(false), earlySymm(false), chiRtol(0), stress(false) {}
 };
 
 static void dumpParts(const char* kind, unsigned i, unsigned j, FieldOperator& op) {
@@ -217,6 +218,9 @@ int main(int argc, char** argv) {
                 std::string lab; is >> lab;
                 const Lattice::Site& st = s.L->getSite(unhexLabel(lab));
                 out << "o ok " << hexLabel(st.Label) << " " << st.OrbitalSize << " " << st.SpinSize << "\n";
+            } else if (cmd == "chitol") {
+                s.chiRtol = hx::readD(is);
+                out << "o ok\n";
             } else if (cmd == "newlattice") {
                 // a second, unrelated lattice in the same process (the old objects stay alive)
                 s.L = new Lattice;
@@ -408,6 +412,7 @@ int main(int argc, char** argv) {
                 std::vector<long> tr(3 * nt); for (size_t q = 0; q < 3 * nt; ++q) is >> tr[q];
                 TwoParticleGF X(*s.S, *s.H, s.Ops->getAnnihilationOperator(i), s.Ops->getAnnihilationOperator(j),
                                 s.Ops->getCreationOperator(k), s.Ops->getCreationOperator(l), *s.DM);
+                if (s.chiRtol > 0) X.ReduceResonanceTolerance = s.chiRtol;
                 X.prepare(); X.compute();
                 if (s.stress) {
                     std::vector<ComplexType> first(nt);
@@ -423,6 +428,7 @@ int main(int argc, char** argv) {
                         << " " << cplxStr(X(tr[3*q], tr[3*q+1], tr[3*q+2])) << "\n";
                 TwoParticleGF Y(*s.S, *s.H, s.Ops->getAnnihilationOperator(i), s.Ops->getAnnihilationOperator(j),
                                 s.Ops->getCreationOperator(k), s.Ops->getCreationOperator(l), *s.DM);
+                if (s.chiRtol > 0) Y.ReduceResonanceTolerance = s.chiRtol;
                 Y.prepare();
                 std::vector<boost::tuple<ComplexType, ComplexType, ComplexType> > freqs;
                 ComplexType sp = ComplexType(0, M_PI / s.DM->beta);
